@@ -45,20 +45,24 @@ def structures(tier, seed=0):
         ]
         S += nets
     else:
-        for n in (1, 2, 3, 4, 5):
+        # sized to finish in well under an hour on 16 cores (about 1500 structures x 3 back ends)
+        for n in (1, 2, 3, 4):
             for par in trees(n):
                 for nc in itertools.product((1, 2, 3), repeat=n):
                     S.append([(par, list(nc))])
-        for n in (1, 2, 3, 4):
+        for par in trees(5):
+            for nc in itertools.product((1, 2), repeat=5):
+                S.append([(par, list(nc))])
+        for n in (1, 2, 3):
             for par in trees(n):
                 for nc in itertools.product((1, 2, 3, 4), repeat=n):
                     if 4 in nc:
                         S.append([(par, list(nc))])
         rng = np.random.default_rng(seed)
-        for _ in range(200):
-            n = int(rng.integers(2, 9))
+        for _ in range(60):
+            n = int(rng.integers(2, 8))
             par = [-1] + [int(rng.integers(0, i)) for i in range(1, n)]
-            S.append([(par, [int(x) for x in rng.integers(1, 6, size=n)])])
+            S.append([(par, [int(x) for x in rng.integers(1, 5, size=n)])])
         cellfam = [([-1], [1]), ([-1], [3]), ([-1, 0, 0], [2, 2, 2]), ([-1, 0, 0, 1], [1, 2, 2, 1]), ([-1, 0], [2, 1]), ([-1, 0, 1, 1], [2, 2, 1, 1])]
         for k in (2, 3):
             for combo in itertools.combinations_with_replacement(range(len(cellfam)), k):
@@ -233,7 +237,7 @@ def main(tier):
     ck.extra["code_reached"] = {k: v for k, v in reached.items() if k.split(".")[0] in ("jaxley", "tridiax")}
     ck.extra["structures"] = {"count": n_struct, "exhaustive_within_bound": True,
                               "bound": ("all parent vectors with parents[i]<i for <= 4 branches x ncomp in {1,2}; single branches up to 4 compartments; 2 deeper samples; 6 networks of 2-3 cells; 3 unsorted parent vectors"
-                                        if tier == "quick" else "trees <= 5 branches x ncomp in {1,2,3}; <= 4 branches with a 4-compartment branch; 200 seeded random trees <= 8 branches / <= 5 compartments; all 2- and 3-cell networks over a 6-cell family")}
+                                        if tier == "quick" else "trees <= 4 branches x ncomp in {1,2,3}; all 5-branch trees x ncomp in {1,2}; <= 3 branches with a 4-compartment branch; 60 seeded random trees <= 7 branches / <= 4 compartments; all 2- and 3-cell networks over a 6-cell family")}
     ck.trusted = ["jax.experimental.sparse.linalg.spsolve solves the CSR system it is given", "tridiax.stone_*: its real code runs through the same chain obligations for structures with <= 2 (quick) / <= 3 (thorough) compartments per branch; for wider branches it is ASSUMED to compute the same function as tridiax.thomas_* (which runs through the chain for every structure)",
                   "jax.numpy/lax/vmap primitive models", "z3 nlsat", "specs/cable.py states the physics",
                   "cited: a strictly diagonally dominant M-matrix system has exactly one solution"]
